@@ -309,6 +309,72 @@ impl<T: RealNumber> BBDTree<T> {
     }
 }
 
+/// Verification hook (cfg `smartcore_verif` only): plain copy of one tree node.
+#[cfg(smartcore_verif)]
+#[derive(Debug, Clone)]
+pub struct VerifBBDNode<T> {
+    /// number of rows below the node
+    pub count: usize,
+    /// start of the node's range in the index permutation
+    pub index: usize,
+    /// centre of the bounding box
+    pub center: Vec<T>,
+    /// half side lengths of the bounding box
+    pub radius: Vec<T>,
+    /// cached sum of the rows
+    pub sum: Vec<T>,
+    /// cached scatter of the rows around their mean
+    pub cost: T,
+    /// lower child
+    pub lower: Option<usize>,
+    /// upper child
+    pub upper: Option<usize>,
+}
+
+#[cfg(smartcore_verif)]
+impl<T: RealNumber> BBDTree<T> {
+    /// Verification hook: (nodes in storage order, index permutation, root).
+    pub fn verif_dump(&self) -> (Vec<VerifBBDNode<T>>, Vec<usize>, usize) {
+        let nodes = self
+            .nodes
+            .iter()
+            .map(|n| VerifBBDNode {
+                count: n.count,
+                index: n.index,
+                center: n.center.clone(),
+                radius: n.radius.clone(),
+                sum: n.sum.clone(),
+                cost: n.cost,
+                lower: n.lower,
+                upper: n.upper,
+            })
+            .collect();
+        (nodes, self.index.clone(), self.root)
+    }
+
+    /// Verification hook: the crate-private assignment step.
+    pub fn verif_clustering(
+        &self,
+        centroids: &[Vec<T>],
+        sums: &mut Vec<Vec<T>>,
+        counts: &mut Vec<usize>,
+        membership: &mut Vec<usize>,
+    ) -> T {
+        self.clustering(centroids, sums, counts, membership)
+    }
+
+    /// Verification hook: the private pruning test.
+    pub fn verif_prune(
+        center: &[T],
+        radius: &[T],
+        centroids: &[Vec<T>],
+        best_index: usize,
+        test_index: usize,
+    ) -> bool {
+        BBDTree::prune(center, radius, centroids, best_index, test_index)
+    }
+}
+
 #[cfg(test)]
 mod tests {
     use super::*;
